@@ -275,7 +275,8 @@ def run(ctx):
         if m in ("new",):
             continue
         seen.setdefault(m, set()).add(c.body.name)
-        r4.check(c.body.name in allowed.get(m, set()), "%s@%s" % (m, c.body.name.replace("pgcat::client::", "")), "HashMap::%s on Client.prepared_statements" % m,
+        # reading the map cannot change which statement a name stands for: any method of Client may look a name up (the routing look-up added for D47 does)
+        r4.check(c.body.name in allowed.get(m, set()) or (m in ("get", "contains_key") and c.body.name.startswith("pgcat::client::Client::")), "%s@%s" % (m, c.body.name.replace("pgcat::client::", "")), "HashMap::%s on Client.prepared_statements" % m,
                  "unexpected HashMap::%s on Client.prepared_statements in %s" % (m, c.body.name), c.where())
         if m == "insert":
             src = {o.call.name for o in origins(c.body, c.args[1]) if o.kind == "call"}
